@@ -1,6 +1,7 @@
 /- Property C01: the property theorems (and nothing else). -/
 import Frugal.Proofs.RoundTrip
 import Frugal.Proofs.NormFacts
+import Frugal.Proofs.ClearNocopy2
 import Frugal.Props.Instances
 namespace Frugal.C01
 open Frugal
@@ -65,6 +66,23 @@ theorem roundtrip_accepted (U : Universe) (sid : Nat) (xs ds : List Val) (h' : B
       .ok (normTop (schemaOf U) sid (.st xs []) (.st ds h'),
            (appendM Generated.params (schemaOf U) sid (.st xs [])).length) :=
   roundtrip (schemaOf U) (schemaOf_ok U) ⟨schemaOf_distinct U, hnc, hdf, hz⟩ sid xs ds h' ht hdest hn hf hr hd
+
+/-- **C01 for schemas with `nocopy` fields as well** (every schema the resolver accepts, holders
+    aside): the same statement, with the provenance of `nocopy` strings forgotten (`erase` turns a
+    view of the input into the string it shows; where the bytes live is C14's `decoded_views_exact`).
+    The normal form does not depend on the option. -/
+theorem roundtrip_with_nocopy (S : Schema) (hS : S.ok = true) (hside : S.rtSideNC) (sid : Nat)
+    (xs ds : List Val) (h' : Bytes) (ht : hasTy S (.strct sid) (.st xs []) = true)
+    (hdest : hasTy S (.strct sid) (.st ds h') = true)
+    (hn : noHolderList xs = true) (hf : sizesFitList xs = true)
+    (hr : rtOK S (.strct sid) (.st xs []) = true)
+    (hd : depth (toWire S (.strct sid) (.st xs [])) ≤ 511) :
+    ∃ w, decodeM Generated.params S sid (appendM Generated.params S sid (.st xs [])) (.st ds h') =
+        .ok (w, (appendM Generated.params S sid (.st xs [])).length) ∧
+      erase w = normTop S sid (.st xs []) (.st ds h') := by
+  apply roundtrip_nocopy Instances.params_valid S hS hside sid xs ds h' ht hdest hn hf hr
+  have : Generated.params.maxDepth = 1023 := rfl
+  omega
 
 /-! the normal form, spelled out -/
 
